@@ -4013,6 +4013,20 @@ class TLSConnection(TLSRecordLayer):
                     # echo the session_ID back
                     if session and clientHello.session_id:
                         session.sessionID = clientHello.session_id
+                        # if the very same session is still in the session
+                        # cache, bind the connection to the cached object so
+                        # that a fatal error on this connection invalidates
+                        # it for session ID resumption too
+                        if sessionCache:
+                            try:
+                                cached = sessionCache[clientHello.session_id]
+                                if cached.masterSecret == \
+                                        session.masterSecret and \
+                                        cached.cipherSuite == \
+                                        session.cipherSuite:
+                                    session = cached
+                            except KeyError:
+                                pass
                 if not session and \
                         (not ticket_ext or ticket_ext and not ticket_ext.ticket)\
                         and sessionCache and clientHello.session_id:
